@@ -208,7 +208,18 @@ def rule_pn53x_accept(report, prog):
     # reads used by the checks are length-guarded (constant index / fixed-size unpack of a slice)
     kills = [n for n in cfg.nodes if n.kind == 'stmt' and isinstance(n.ast, ast.Assign)
              and any(norm(t) == 'frame' for t in n.ast.targets)]
-    del_nodes = [(cfg.node_of(n), try_const(b['B']) - try_const(b['A'])) for n, b in find(f.node, 'del frame[$A:$B]')]
+    # the response is checked as received: only the fixed-size header is ever removed, nothing is skipped to find a frame start
+    resync = [n for n, b in find(f.node, 'del frame[$A:$B]') if not (isinstance(try_const(b['A']), int) and isinstance(try_const(b['B']), int))]
+    resync += [n for n in walk_no_nested(f.node) if isinstance(n, ast.Delete) and any(norm(t).startswith('frame[') for t in n.targets)
+               and not find(n, 'del frame[$A:$B]')]
+    resync += [k.ast for k in kills if any(isinstance(x, ast.Name) and x.id == 'frame' for x in ast.walk(k.ast.value))]
+    resync += [c for c in ast.walk(f.node) if isinstance(c, ast.Call) and norm(c.func) in ('frame.pop', 'frame.remove', 'frame.lstrip', 'frame.strip')]
+    report.check(not resync, 'C14-R2', key(f.qname, 'no bytes of the response are skipped before the framing checks'),
+                 f.loc(resync[0]) if resync else f.loc(),
+                 'Chipset.command() removes a data dependent part of the response (`%s`): a buffer that is not a well-formed frame '
+                 '(junk in front of a frame) is accepted' % (norm(resync[0])[:60] if resync else ''))
+    del_nodes = [(cfg.node_of(n), try_const(b['B']) - try_const(b['A'])) for n, b in find(f.node, 'del frame[$A:$B]')
+                 if isinstance(try_const(b['A']), int) and isinstance(try_const(b['B']), int)]
     extra = []
     for e, t in cfg.test_nodes.items():
         b = match(e, '$X != len(frame) - $K')
@@ -468,6 +479,12 @@ def run(report, prog, tier):
 
 X = 'nfc.clf.pn53x'
 MUTANTS = [
+    ('pn53x-resync-on-start-of-frame', 'nfc.clf.pn53x', """        if frame.startswith(self.SOF + b'\\xFF\\xFF'):
+            # extended frame""", """        if frame.find(self.SOF) > 0:
+            del frame[0:frame.find(self.SOF)]
+
+        if frame.startswith(self.SOF + b'\\xFF\\xFF'):
+            # extended frame""", 'C14-R2'),
     ('lcs-253', X, "+ bytearray([254-len(cmd_data)])", "+ bytearray([253-len(cmd_data)])", 'C14-R1'),
     ('format-switch-255', X, "if len(cmd_data) < 254:", "if len(cmd_data) < 255:", 'C14-R1'),
     ('ext-len-without-tfi', X, 'head = self.SOF + b\'\\xFF\\xFF\' + pack(">H", len(cmd_data)+2)', 'head = self.SOF + b\'\\xFF\\xFF\' + pack(">H", len(cmd_data)+1)', 'C14-R1'),
